@@ -76,6 +76,11 @@ CLAIMED["C09"] = dict(
    note="SEQUENTIAL fault paths only (claimed as such): goroutine bodies run to completion when spawned, helpers are scheduled cooperatively. Two leaks found here were repaired (fix 94392a5, 9897c5d); one finding stays listed (append-mode relay candidates share one allocation). Outside: timing of Restart/Close against in-flight exchanges under real concurrency, DTLS/TLS/TCP TURN branches, the open-socket tally after Close.",
    ref="DESIGN.md §5 C09")
 
+CLAIMED["C15"] = dict(
+   text="Admission and routing of one accepted TCP connection through the real TCPMuxDefault.handleConn / readStreamingPacket / stun.Message.Decode / getConn / createConn / tcpPacketConn.AddConn / startReading / readFromContext / WriteTo over fake listener and connection: closed iff the first frame is missing, truncated, oversized, undecodable, not Binding or USERNAME-less (incl. an arbitrary symbolic 20-byte header); otherwise attached to exactly the packet conn of (ufrag, peer family, local IP), provisional with expiry armed for unknown ufrags; first message and later packets delivered in order with the peer address; replies go back over the same connection framed; provisional conns expire; Close closes listener and connections.",
+   note="SEQUENTIAL part only: accept loop, readers and close watchers run as cooperative coroutines (one legal schedule); AfterFunc fires only when the harness fires it; segmentations with <= 2 partial reads. Outside: expiry timing, concurrent accepts/removals, Close waiting for goroutines, goroutine census.",
+   ref="DESIGN.md §5 C15")
+
 NOT_APPLICABLE = {
  "C01": "needs two live agents, a symbolic network scheduler and a fairness (liveness) argument; a sequential encoder of single functions cannot express it (its safety half is covered by the C02/C03 lemmas)",
  "C08": "termination / unblocking of blocked goroutines and a goroutine census: no scheduler or channel model in a sequential SSA encoder",
@@ -84,7 +89,6 @@ NOT_APPLICABLE = {
 }
 
 NOT_BUILT = {
- "C15": "check not built yet in this round (planned in DESIGN.md §5); not claimed",
 }
 
 def main():
